@@ -39,12 +39,23 @@ def _fresh_leaf():
     return leaf
 
 
-def tree_family(tier, w):
+_FAM = {}
+
+
+def tree_family(tier, w, seed=0):
     if tier == "quick":
         return TR.depth1(w, heavy=(w <= 32))
-    out = TR.depth1(w, heavy=(w <= 64)) + TR.depth3(w)
-    out += TR.depth2(w, heavy=(w <= 16))
-    return out
+    k = (w, seed)
+    if k not in _FAM:
+        out = TR.depth1(w, heavy=(w <= 64)) + TR.depth3(w)
+        d2 = TR.depth2(w, heavy=(w <= 16))
+        random.Random(seed + w).shuffle(d2)
+        out += d2[:D2_THOROUGH]
+        _FAM[k] = out
+    return _FAM[k]
+
+
+D2_THOROUGH = 60000
 
 
 def items(tier, seed):
@@ -57,7 +68,7 @@ def items(tier, seed):
         widths = [1, 8, 16, 32, 64, 128]
         per = 600
     for w in widths:
-        fam = tree_family(tier, w) if w > 1 else TR.depth1(1)
+        fam = tree_family(tier, w, seed) if w > 1 else TR.depth1(1)
         if tier == "quick":
             # quick: all of depth-1 at these widths + a seed-selected slice of depth 2 / depth 3
             d2 = TR.depth2(w, heavy=(w <= 8)) + TR.depth3(w)
@@ -99,7 +110,7 @@ def _fam_for(item):
         random.Random(seed).shuffle(d2)
         fam = fam + d2[:2500]
     else:
-        fam = tree_family(tier, w)
+        fam = tree_family(tier, w, seed)
     return fam[lo:hi]
 
 
@@ -630,7 +641,7 @@ def coverage(agg, tier):
         "solver_s": round(agg.get("solver_s", 0.0), 1),
         "trees_by_width_family1": agg.get("trees_by_width", {}),
         "bounds": {
-            "family1": "trees of depth<=1 (all), depth 2 and reduced depth 3 (quick: seed-selected 2500 per width; thorough: all) over leaves {reg, boundary constants, register slice, 2-part composition}; widths quick {8,32}, thorough {1,8,16,32,64,128}; complexity in {0,5}; stages build/simplify/simplify(bitslice)/simplify(widening); all register values",
+            "family1": "trees of depth<=1 (all), depth 2 (quick: seed-selected 2500 per width; thorough: seed-selected 60000 per width of the ~570000) and reduced depth 3 over leaves {reg, boundary constants, register slice, 2-part composition}; widths quick {8,32}, thorough {1,8,16,32,64,128}; complexity in {0,5}; stages build/simplify/simplify(bitslice)/simplify(widening); all register values",
             "family2": "depth<=1 trees (thorough: + 3000 depth-2) at width 8 (thorough: 8,16), every leaf register bound to a symbolic constant; all leaf values; paths<=400 per tree",
             "family3": "%d shapes with a symbolic constant operand at width 4 (thorough: 4, 8); every value of the constant; all register values; stages build/simplify/bitslice" % len(F3_SHAPES),
             "outside": "depth>3, widths not listed, cfp floats, ext/lab, mixed-signedness ordered comparisons, division by zero, INT_MIN/-1, rotation amounts >= width",
